@@ -119,6 +119,10 @@ CLAIMED = {
         "technique": "diagonal arm table of PartialEq and order-sensitivity of the Hash arms on HIR (R-EQHASH)",
         "level": P + "Value::eq is diagonal with payload comparisons (equivalence follows from payload types), unordered payloads are hashed order-independently, float eq classes match the hash normalisation, every variant is hashed.",
     },
+    "C42": {
+        "technique": "statement-shape rules on type-checked HIR of the expander (loop iterator form, provenance of bounds and placeholder, decoded format template, resolved substitution method, fixpoint loop)",
+        "level": "Partial, structural clauses only: the copies are produced by an ascending half-open loop over the bounds parse_for_range returned, body lines in order; `..=` is tested before `..` and alone adds 1; the placeholder is exactly `{var}`; substitution is str::replace of every occurrence by the value; the pass is iterated to a fixpoint. That the expanded text parses to the same program as hand-written copies is not decided.",
+    },
     "C43": {
         "technique": "unit (char vs byte) taint analysis of str slice indices on HIR, interprocedural through tuple returns and callers",
         "level": P + "No str/String range slice in the LSP crate is indexed by a character-counted value (Position.character, .chars().count(), per-char loop counters, pest columns). Other panics and range validity are not decided.",
@@ -183,5 +187,4 @@ CLAIMED = {
 
 NOT_APPLICABLE = {
     "C25": "the property is the numeric value of trend counts under sharing; correctness is a combinatorial identity over runtime event sequences - no structural clause distinguishes a right count from a wrong one (DESIGN.md section 6)",
-    "C42": "equivalence of a textual loop expansion with hand-written copies is a statement about parse results of generated text; there is no sibling implementation or table to cross-check statically (DESIGN.md section 6)",
 }
